@@ -32,11 +32,11 @@ func init() {
 }
 
 // reweightedTable builds a deep copy of table id whose weights come from a constructed coding sequence.
-func reweightedTable(id int, r *rand.Rand, zeroSome bool, thresholdAll ...bool) (codon.Table, plainTable) {
-	return reweightedTableT(id, r, zeroSome, len(thresholdAll) > 0 && thresholdAll[0])
+func reweightedTable(id int, r *rand.Rand, zeroSome bool, special ...bool) (codon.Table, plainTable) {
+	return reweightedTableT(id, r, zeroSome, len(special) > 0 && special[0], len(special) > 1 && special[1])
 }
 
-func reweightedTableT(id int, r *rand.Rand, zeroSome, thresholdAll bool) (codon.Table, plainTable) {
+func reweightedTableT(id int, r *rand.Rand, zeroSome, thresholdAll, truncSensitive bool) (codon.Table, plainTable) {
 	t := deepTable(id)
 	base := snapshot(t)
 	weights := map[string]int{}
@@ -49,6 +49,9 @@ func reweightedTableT(id int, r *rand.Rand, zeroSome, thresholdAll bool) (codon.
 		mode := r.Intn(6)
 		if thresholdAll && len(cs) >= 2 {
 			mode = 1
+		}
+		if truncSensitive && len(cs) >= 2 {
+			mode = 6
 		}
 		switch {
 		case mode == 0 && zeroSome: // whole amino acid unusable
@@ -73,6 +76,19 @@ func reweightedTableT(id int, r *rand.Rand, zeroSome, thresholdAll bool) (codon.
 			}
 			if len(cs) == 2 {
 				weights[cs[1]] = T - T/10
+			}
+		case mode == 6: // shares of the form x.99 %: any rounding of shares to whole per cent shifts the proportions by 1..1.5 %
+			pat := map[int][]int{2: {8901, 1099}, 3: {3399, 3299, 3302}, 4: {6100, 1299, 1299, 1302}, 5: {5000, 1299, 1299, 1299, 1103}}
+			n := len(cs)
+			if n > 5 {
+				n = 5
+			}
+			for i, c := range cs {
+				if i < n {
+					weights[c] = pat[n][i]
+				} else {
+					weights[c] = 0
+				}
 			}
 		case mode == 2: // some zero
 			for _, c := range cs {
@@ -362,8 +378,8 @@ func runC07(w *mon.W) {
 		w.End()
 	}
 	// proportionality
-	nTab := w.Pick(5, 25)
-	draws := w.Pick(100000, 1000000)
+	nTab := w.Pick(6, 25)
+	draws := w.Pick(300000, 1000000)
 	// K = number of codon frequency tests in the whole run (upper bound: tables x 64)
 	K := float64(nTab * 64)
 	band := math.Sqrt(math.Log(2*K/1e-9) / (2 * float64(draws)))
@@ -372,7 +388,8 @@ func runC07(w *mon.W) {
 		tid := tableIDs[(t*7)%len(tableIDs)]
 		tr := w.Rand(fmt.Sprintf("proptbl-%d", t))
 		// every second table puts one codon of every amino acid at exactly 10% and another just above (10.1..11%)
-		tbl, snap := reweightedTable(tid, tr, false, t%2 == 1)
+		// and every third one gives every amino acid shares of the form x.99 %
+		tbl, snap := reweightedTable(tid, tr, false, t%3 == 1, t%3 == 2)
 		for _, l := range snap.letters() {
 			id := fmt.Sprintf("prop-t%d-%s", tid, l)
 			idx++
